@@ -163,6 +163,21 @@ def unstable_first(cx):
     ok = any(any(lt_true(lambda e: e[0] == "param", lambda e: contains(call("~RaftLog::first_index", ANY), e))(l) for l in lits) for lits in zero) and \
         any(any(lt_true(lambda e: e[0] == "call" and e[1].endswith("RaftLog::last_index"), lambda e: e[0] == "param")(l) for l in lits) for lits in zero)
     cx.check(ok, "term:range", "term(idx) answers 0 outside [first_index - 1, last_index]")
+    # the unstable part's own term lookup is meaningful only inside that range: wherever else it is consulted (a walk
+    # that calls the lookup directly instead of term()), the lower bound must be re-established for the index asked
+    n = 0
+    for c in cx.prog.all_calls:
+        if c.fn.crate != "raft" or not c.data["callee"].endswith("Unstable::maybe_term") or (c.fn.impl_adt or "").endswith("Unstable"):
+            continue
+        n += 1
+        idx = call_args(cx, c)[1]
+        def lower(l, idx=idx):
+            if l[0] != "is" or l[2] is not False or l[1][0] != "bin" or l[1][1] != "Lt" or l[1][2] != idx:
+                return False
+            y = l[1][3]
+            return y[0] == "bin" and y[1] == "Sub" and y[3] == ("int", 1) and contains(call("~RaftLog::first_index", ANY), y[2])
+        require(cx, c, cx.site_key(c, "term:raw-lookup"), "the unstable term lookup is consulted only for an index >= first_index() - 1", lower)
+    cx.check(n >= 1, "term:raw-lookup:floor", "the unstable term lookup has a caller")
 
 
 @obligation("LOGGUARD.slice", ["C14", "C05", "C07", "C13"], floor=3, kind="guard (CNF) + value shape",
@@ -211,6 +226,18 @@ def slice_(cx):
     cx.check(ok, "bounds-first", "slice validates [low, high) against the log before reading anything")
 
 
+def limiter_closure(cx, cp):
+    """The take_while predicate of the size limiter: (first entry always kept, a further one iff cumulative size <= max, rest)"""
+    from ..idioms import closure_returns
+    r = closure_returns(cx.prog, cp) or []
+    first = [(lits, v) for lits, v, _ in r if v == ("bool", True)]
+    rest = [(lits, v) for lits, v, _ in r if v != ("bool", True)]
+    ok1 = any(any(l[0] == "in" and l[2] == frozenset([0]) for l in lits) for lits, v in first)
+    ok2 = bool(rest) and all(v[0] == "bin" and v[1] == "Le" and v[3][0] in ("upvar", "field", "local", "param") or (v[0] == "bin" and v[1] == "Le") for lits, v in rest)
+    strict = any(v[0] == "bin" and v[1] == "Lt" for lits, v in rest)
+    return ok1, ok2 and not strict, rest
+
+
 @obligation("LOGGUARD.limit_size", ["C13", "C14", "C19"], floor=2, kind="closure shape",
             why="size-limited reads must return a non-empty maximal prefix within the limit")
 def limit_size(cx):
@@ -221,15 +248,9 @@ def limit_size(cx):
     cx.check(early, "keep-one", "a vector of at most one entry is never truncated")
     clos = [sp for sp, s in cx.prog.calls_out[f.key] if s.kind == "closure"]
     cx.check(len(clos) == 1, "closure", "limit_size counts with one take_while closure")
-    from ..idioms import closure_returns
     for cp in clos:
-        r = closure_returns(cx.prog, cp) or []
-        first = [(lits, v) for lits, v, _ in r if v == ("bool", True)]
-        rest = [(lits, v) for lits, v, _ in r if v != ("bool", True)]
-        ok1 = any(any(l[0] == "in" and l[2] == frozenset([0]) for l in lits) for lits, v in first)
-        ok2 = bool(rest) and all(v[0] == "bin" and v[1] == "Le" and v[3][0] in ("upvar", "field", "local", "param") or (v[0] == "bin" and v[1] == "Le") for lits, v in rest)
-        strict = any(v[0] == "bin" and v[1] == "Lt" for lits, v in rest)
+        ok1, ok2, rest = limiter_closure(cx, cp)
         cx.check(ok1, "first-always", "the first entry is always kept (size == 0 -> true)")
-        cx.check(ok2 and not strict, "within-limit", "a further entry is kept iff the cumulative size stays <= max (found %s)" % [show(v) for _, v in rest][:2])
+        cx.check(ok2, "within-limit", "a further entry is kept iff the cumulative size stays <= max (found %s)" % [show(v) for _, v in rest][:2])
     tr = [c for c in cx.prog.all_calls if c.fn is f and c.data["callee"].endswith("Vec::truncate")]
     cx.check(len(tr) == 1, "truncate", "the vector is truncated to the counted prefix")
